@@ -13,7 +13,8 @@ RULE = ('the real bilform_matrix and linform_vector run on every path: inline (N
         'lists. Oracle: bitwise equality with the matrix of single bilform(trial_j, test_i) / linform(elem) calls; offline trace check: '
         'every column computed exactly once; after each injected cache fault (file missing, empty, 10 bytes, header only, half, one '
         'byte short, each planted and also produced by a save that writes that prefix and then raises, resp. dies with os._exit in a '
-        'forked child) the next call returns the bit-identical matrix and leaves a complete file; lists with identical element text '
+        'forked child; and a process that dies during assembly, before any save, at the first / a middle / the last pair and at timer-chosen '
+        'moments of the pool path) the next call returns the bit-identical matrix and leaves a complete file; lists with identical element text '
         'on different curves and different lists on one curve never serve each other. distinct = distinct (object, path, worker count, '
         'delay seed, fault class) cases; distinct schedule signatures (task->pid map + completion order) are counted')
 ASSUMPTIONS = [
@@ -24,7 +25,7 @@ ASSUMPTIONS = [
 ]
 FAULTS = ['missing', 'empty', 'ten-bytes', 'header-only', 'half', 'one-byte-short']
 REQUIRED = {t: ['path:inline', 'path:serial', 'path:pool', 'path:cache-hit', 'workers:1', 'workers:16', 'list:rectangular', 'list:below-threshold',
-                'history:different-lists-one-process', 'fault:planted', 'fault:save-raises', 'fault:crash-during-save', 'object:matrix',
+                'history:different-lists-one-process', 'fault:planted', 'fault:save-raises', 'fault:crash-during-save', 'fault:crash-during-assembly', 'object:matrix',
                 'object:load-vector', 'keys:same-text-other-curve', 'trace:checked'] + ['fault-class:' + f for f in FAULTS]
             for t in ('quick', 'thorough')}
 TIMEOUT = {'quick': 1500, 'thorough': 7200}
@@ -334,6 +335,46 @@ def run_fault(spec, acc, obj='matrix'):
                     if os.path.exists(fn):
                         os.remove(fn)
                     real_save(fn, ref)
+        # (4) the process dies DURING ASSEMBLY (before any save): at the first, a middle and the last pair on the serial path,
+        #     and at a timer-chosen moment on the pool path; the next call in the surviving process must not trust what is on disk
+        n_pairs = len(tests) * len(trials)
+        crash_points = [('serial', 1), ('serial', n_pairs // 2), ('serial', n_pairs), ('pool', 0.02), ('pool', 0.15)]
+        for path, point in crash_points:
+            w = dict(wit0, how='crash-during-assembly', path=path, point=point)
+            if os.path.exists(fn):
+                os.remove(fn)
+            pid = os.fork()
+            if pid == 0:
+                try:
+                    if path == 'serial':
+                        cnt = [0]
+                        orig_b = SLmod.SingleLayerOperator.bilform
+
+                        def dying_bilform(self, a, b):
+                            cnt[0] += 1
+                            if cnt[0] >= point:
+                                os._exit(19)
+                            return orig_b(self, a, b)
+                        SLmod.SingleLayerOperator.bilform = dying_bilform
+                        SL.bilform_matrix(tests, trials, use_mp=False)
+                    else:
+                        import signal
+                        signal.signal(signal.SIGALRM, lambda *a: os._exit(19))
+                        signal.setitimer(signal.ITIMER_REAL, point)
+                        undo = install_worker_monitor(SLmod, 'MP_SL_matrix_col', os.devnull, 7)   # 0-3 ms per column
+                        SL.bilform_matrix(tests, trials, use_mp=True)
+                finally:
+                    os._exit(18)
+            _, status = os.waitpid(pid, 0)
+            code = os.waitstatus_to_exitcode(status)
+            acc.seen('fault:crash-during-assembly')
+            acc.count('assembly_crash_exit_%d' % code)
+            call('after-assembly-crash:%s' % path, w)
+            if not os.path.exists(fn) or open(fn, 'rb').read() != good:
+                acc.violation('cache-file-not-restored:assembly-crash', '%s: after a crash during %s assembly the next call did not leave a complete, correct file' % (curve, path), w)
+                if os.path.exists(fn):
+                    os.remove(fn)
+                real_save(fn, ref)
         # different lists on the same curve never share an entry
         other_tests, other_trials = list(reversed(tests)), trials
         got = SL.bilform_matrix(other_tests, other_trials, use_mp=False)
